@@ -60,4 +60,11 @@ props_sim.SPECS['C07']['extra'] = list(props_sim.SPECS['C07'].get('extra', [])) 
 props_est.SPECS['C12']['extra'] = list(props_est.SPECS['C12'].get('extra', [])) + [(props_lin.GROUP_DBL, props_lin.gen_dbl_c12)]
 props_est.SPECS['C11']['extra'] = list(props_est.SPECS['C11'].get('extra', [])) + [(props_lin.GROUP_DBL, props_lin.gen_dbl_c11)]
 props_sim.SPECS['C08']['extra'] = list(props_sim.SPECS['C08'].get('extra', [])) + [(props_sim.GROUP_REAL, props_sim.gen_real_c08)]
+# the caller's instruction-set flags: the header templates compiled for a target with fused multiply-add (only when this
+# machine has it); the dyadic operands make every operation exact, fused or not
+def _has_fma():
+    try: return any(' fma ' in l + ' ' for l in open('/proc/cpuinfo') if l.startswith('flags'))
+    except Exception: return False
+if _has_fma():
+    props_alg.SPECS['C15']['extra'] = list(props_alg.SPECS['C15'].get('extra', [])) + [(dict(props_lin.GROUP_DBL, name='dblfma', flags=('-mfma', '-O2'), replay_prefix=('o.c15.dyadic',)), props_alg.gen_dbl_c15)]
 NOT_CLAIMED = {}
